@@ -66,11 +66,13 @@ func (f *Fill) Call(s *slip.Scope, args slip.List, depth int) (result slip.Objec
 	if v, ok := slip.GetArgsKeyValue(kargs, slip.Symbol(":start")); ok {
 		start = getFixnumArg(s, v, ":start", depth)
 	}
-	if v, ok := slip.GetArgsKeyValue(kargs, slip.Symbol(":end")); ok {
+	if v, ok := slip.GetArgsKeyValue(kargs, slip.Symbol(":end")); ok && v != nil {
 		end = getFixnumArg(s, v, ":end", depth)
 	}
 	result = args[0]
 	switch seq := args[0].(type) {
+	case nil:
+		// the empty list, nothing to fill
 	case slip.List:
 		end = checkStartEnd(s, start, end, len(seq), depth)
 		for i := start; i < end; i++ {
@@ -87,6 +89,11 @@ func (f *Fill) Call(s *slip.Scope, args slip.List, depth int) (result slip.Objec
 			ra[i] = rune(c)
 		}
 		result = slip.String(ra)
+	case *slip.Vector:
+		end = checkStartEnd(s, start, end, len(seq.AsList()), depth) // up to the fill pointer
+		for i := start; i < end; i++ {
+			seq.Set(item, i)
+		}
 	case slip.VectorLike:
 		end = checkStartEnd(s, start, end, seq.Length(), depth)
 		for i := start; i < end; i++ {
